@@ -102,6 +102,18 @@ def run(prop, tier, seed, scratch, t0):
                          crash_prop="C18")
     dr.append(ds)
     viol += ds["violations"]
+    # (d) wire.Receiver, the consumer go-perun subscribes itself: what the relay hands over must also come out of Next
+    rr = vlib.tlc(scratch, "Receiver", "CONSTANTS MaxPut = %d\nSPECIFICATION Spec\nINVARIANTS NoLoss WaitsOnlyWhenEmpty\nCHECK_DEADLOCK FALSE\n"
+                  % (3 if tier == "quick" else 4), name="Receiver", workers=1, extra=["-dump", "dot,actionlabels", "graph.dot"], timeout=600)
+    if not rr["ok"]:
+        raise vlib.Inconclusive("TLC reports %s in Receiver.tla itself" % rr["violated"])
+    rdot = os.path.join(rr["dir"], "graph.dot")
+    rr["out"] = ""
+    tl.append(rr)
+    dv = vlib.run_driver(binary, "TestReceiver", dict(VERIF_DOT=rdot, VERIF_SEED=seed), scratch, "receiver", timeout=1200, crash_prop="C18")
+    os.remove(rdot)
+    dr.append(dv)
+    viol += dv["violations"]
     counts = vlib.merge_counts(dr)
     counts["graph_states"] = sres[0]["counts"].get("graph_states", 0)
     counts["graph_edges"] = sres[0]["counts"].get("graph_edges", 0)
@@ -118,14 +130,17 @@ def run(prop, tier, seed, scratch, t0):
              "log mutex and validated by TLC against RelayTrace.tla: every operation linearised between its call and return, "
              "asynchronous consumer removal as silent step, final bags compared; (c) free-running stress (16 goroutines) with "
              "the schedule-independent accounting monitor (nothing lost, nothing twice, nothing to a rejecting consumer, "
-             "default handler exclusive). distinct_nontrivial = graph edges executed + recorded traces accepted by TLC",
+             "default handler exclusive); (d) Receiver.tla (the consumer go-perun itself subscribes: Put, Next with a live / "
+             "finished context, a waiting Next that meets a put, the end of its context, a close, or a put and the end of its "
+             "context at the same instant): every edge of its graph on a real wire.Receiver, nothing put into an open "
+             "receiver is lost, returned twice or out of order. distinct_nontrivial = graph edges executed + recorded traces accepted by TLC",
         exhaustive=True, trace_negative_control=neg, recorded_traces=traces, trace_lines=counts.get("trace_lines", 0), stress_puts=counts.get("stress_puts", 0),
         driver_counts=counts,
         tlc=[dict(config=x["cmd"].split("-config ")[1].split()[0], generated=x["generated"], distinct=x["distinct"],
                   wall_s=round(x["wall"], 1)) for x in tl],
         checker_cmd="tlc -dump dot,actionlabels graph.dot Relay.tla ; drv.test -test.run '^TestRelaySeq$|^TestRelayTrace$|^TestRelayStress$' ; tlc RelayTrace.tla",
     )
-    assumptions = ["recording consumers observe Consumer.Put calls (what a closed wire.Receiver does with an envelope is not the relay's)",
+    assumptions = ["recording consumers observe Consumer.Put calls in (a)-(c); wire.Receiver is covered on its own in (d), one reader, buffer never full",
                    "interleavings inside the relay are produced by the Go scheduler (stress, recorded traces), not enumerated; "
                    "no gate hooks are used", "relay close only in sequential histories"]
     return vlib.finish(prop, tier, seed, t0, cov, viol, assumptions)
